@@ -45,6 +45,14 @@ class SolverzCodePrinter(PythonCodePrinter):
                 return repr(v)
         return super()._print_Float(expr)
 
+    # The constants pi and E are printed as the bare names `pi` and `e`, which a variable or parameter of that name
+    # (`pi = y_[0:1]` in the generated function, the argument `pi` of inner_F0) silently shadows: print the numbers.
+    def _print_Pi(self, expr):
+        return repr(float(expr))
+
+    def _print_Exp1(self, expr):
+        return repr(float(expr))
+
     def _print_Pow(self, expr, rational=False):
         # numpy refuses an integer-typed array to a negative integer power and numba evaluates it in integers
         # (2**-2 == 0): with a float exponent integer-typed and float-typed arrays give the same float power
